@@ -39,14 +39,15 @@ def _nt_string(s, st):
     out = []
     for ch in s:
         o = ord(ch)
+        # (every character may also be spelled as a numeric escape, the backslash and the quote included)
         if ch == "\\":
-            out.append("\\\\")
+            out.append(st.choice(["\\\\", "\\\\", "\\u005C", "\\U0000005C"]))
         elif ch == '"':
-            out.append('\\"')
+            out.append(st.choice(['\\"', '\\"', "\\u0022"]))
         elif ch == "\n":
-            out.append("\\n")
+            out.append(st.choice(["\\n", "\\n", "\\u000A"]))
         elif ch == "\r":
-            out.append("\\r")
+            out.append(st.choice(["\\r", "\\r", "\\u000D"]))
         elif ch == "\t":
             out.append(st.choice(["\\t", "\t", "\\u0009"]))
         elif o < 0x20 or o == 0x7F:
@@ -367,7 +368,10 @@ def _xml_esc(s, attr=False):
 
 
 def write_rdfxml(quads, style=None):
-    out = ['<?xml version="1.0" encoding="utf-8"?>', '<rdf:RDF xmlns:rdf="%s">' % RDF]
+    # an ambient language on the root element (styled documents only): literals in that language inherit it, plain literals
+    # switch it off with xml:lang="", typed literals are unaffected by it
+    amb = _st(style).choice([None, None, "en", "de"]) if style is not None else None
+    out = ['<?xml version="1.0" encoding="utf-8"?>', '<rdf:RDF xmlns:rdf="%s"%s>' % (RDF, f' xml:lang="{amb}"' if amb else "")]
     n = 0
     for s, p, o, g in quads:
         if g is not None:
@@ -384,7 +388,11 @@ def write_rdfxml(quads, style=None):
         else:
             lang = o[2] if len(o) > 2 else None
             dt = o[3] if len(o) > 3 else None
-            attrs = (f' xml:lang="{lang}"' if lang else "") + (f' rdf:datatype="{_xml_esc(dt, True)}"' if dt else "")
+            if amb and not dt:
+                la = "" if lang == amb and _st(style).random() < 0.7 else f' xml:lang="{lang or ""}"'
+            else:
+                la = f' xml:lang="{lang}"' if lang else ""
+            attrs = la + (f' rdf:datatype="{_xml_esc(dt, True)}"' if dt else "")
             body = f"<{tag}{attrs}>{_xml_esc(o[1])}</p{n}:{local}>"
         base = ""
         if style is not None and _st(style).random() < 0.5:
